@@ -24,3 +24,9 @@ package util
 //@ func parseStatusStringFromUnstructured
 //@ props C09
 //@ requires object != nil
+
+// C12: hashing a pod template writes only into buffers it allocates itself.
+//@ func ComputeHash
+//@ props C12
+//@ requires template != nil
+//@ pure
